@@ -19,6 +19,18 @@ tla/DenialProof/DenialProof.tla   middleware/cache/denial_proof_cache.go as the 
     proof TTL / RRSIG(proof) window) and every stamped answer identifies itself in what is later served (SOA serial,
     RRSIG inception).  After every step the index (overlay shim) is compared with the model's state (drift) and the C04
     predicates are judged on the REAL replies against the driver's own oracle.
+  - Race = TRUE (gap C02-r3-1): the lookup as the three sections it is -- Begin (the zone's snapshot is captured), the lock-free
+    evaluation during which other clients' admissions interleave, the quarantine re-check + shaping (FlSynth / FlMissGet /
+    FlResolve / FlPositive) -- with zone changes (Create: another RRset at a proof owner; the question in flight or another
+    one turns positive) and the NSEC3 conflict quarantine of recordWithKind (ring removed, tuple tombstoned, admissions
+    refused while it lasts; NSEC: latest wins).  MC_Race3 / MC_RaceNsec exhaustive with NoQuarantinedSynthesis and
+    QuarantineEmptiesRing; twins: the re-check skips NSEC3 selections (= the seeded change C02-r3-1; counter-examples with a
+    type added at the NODATA name and with the NXDOMAIN name created), the conflict leaves the ring in place;
+    MC_RaceNsecStale documents (must be refuted) that an NSEC lookup in flight answers from a replaced snapshot.
+    The driver parks the real lookup between the capture and the re-check (the denialProofCache.now seam right after the
+    capture, or the shared crypto gate inside BeginNSEC3Hash = mid-evaluation), performs the interleaved steps on the real
+    zone and pipeline, releases it; c02/denied-existing/quarantined-ring: the released lookup denied a name/type that
+    exists from a ring the index had tombstoned before the lookup was released.
 Verdict classes (key prefix): c04/ (lifetime: ttl-shown, served-expired, hand-down, derived-outlives, derived-shown),
 c02/ (acceptance: wrong-denial, denied-existing), ad/ (AD on a reply of a zone that does not validate).  ONLY = None: every
 class is a violation; "C04" / "C02": only that class, the others are reported as out-of-class breaches (exit code unaffected).
@@ -58,6 +70,13 @@ NEG = [("MC_NegProofsOnly.cfg", "ATTLShown"), ("MC_NegProofsOnlyHand.cfg", "AHan
        ("MC_NegSoaKeepsLonger.cfg", "EntryWithinTruth"), ("MC_NegSoaKeepsLongerTTL.cfg", "ATTLShown"),
        ("MC_NegHandSoaOnly.cfg", "AHandDown"), ("MC_NegUncovered.cfg", "ACoveredOnly"),
        ("MC_NegAdmitUnvalidated.cfg", "AADOnlyValidated"), ("MC_NegNoFold.cfg", "APieceFoldsSoa")]
+# the lookup-in-flight dimension (Race = TRUE).  RACE_NEG: twins whose counter-examples are replayed; RACE_DOC: as-built
+# behaviour the model documents without demanding the opposite (the config must be refuted, nothing is replayed from it)
+RACE_NEG = [("MC_NegRecheckType.cfg", "ANoQuarantinedSynthesis"), ("MC_NegRecheckName.cfg", "ANoQuarantinedSynthesis"),
+            ("MC_NegQuarKeepsRing.cfg", "QuarantineEmptiesRing")]
+RACE_DOC = [("MC_RaceNsecStale.cfg", "ANoStaleSnapshotDenial")]
+RACE_SIM = {"nsec": "Sim_Race_Nsec.cfg", "nsec3": "Sim_Race_Nsec3.cfg"}
+KIND = {"nsec": "nsec", "nsec3": "nsec3", "insecure": "nsec"}
 
 
 def parallel(jobs):
@@ -88,11 +107,17 @@ def counterexample(r):
 # The base model (Mutant = "none") in Python: gives the expectations for action sequences that do not come with states of
 # the base model (the counter-examples of the mutants) and is cross-checked against every state TLC simulates.
 class Model:
-    def __init__(self, secure=True, maxgen=10 ** 6):
+    def __init__(self, secure=True, maxgen=10 ** 6, kind="nsec"):
         self.now, self.gen, self.soa, self.der = 0, 0, None, None
         self.pf = {p: None for p in PIECES}
-        self.secure, self.maxgen = secure, maxgen
+        self.secure, self.maxgen, self.kind = secure, maxgen, kind
         self.reply = {"kind": "none"}
+        # Race: zone versions per proof owner, the NSEC3 conflict tombstone, the lookup in flight
+        self.ver, self.born, self.quar, self.fl = {p: 0 for p in PIECES}, 0, 0, None
+        self.event = None       # what the last admission attempt met: "conflict" | "refused" | None
+
+    def quar_active(self):
+        return self.kind == "nsec3" and self.quar > self.now
 
     def live(self, e):
         return e is not None and e["exp"] > self.now
@@ -118,22 +143,85 @@ class Model:
     def upstream(self, q, s, x):
         self.prune()
         self.gen += 1
-        if self.secure:
-            self.soa = {"g": self.gen, "exp": self.now + s, "tru": self.now + s}
-            for p in NEED[q]:
-                self.pf[p] = {"g": self.gen, "exp": self.now + min(s, x), "tru": self.now + x}
+        self.event = None
+        if self.secure and self.quar_active():
+            self.event = "refused"
+        elif self.secure:
+            conf = [p for p in NEED[q] if self.kind == "nsec3" and self.live(self.pf[p]) and self.pf[p]["v"] != self.ver[p]]
+            if conf:
+                if len(conf) != 1:
+                    raise vf.MachineryError("denial-proof model: %d conflicting RRsets in one bundle (configs keep MaxBorn <= 1)" % len(conf))
+                self.event = "conflict"
+                self.quar = max(self.now + min(s, x), self.pf[conf[0]]["exp"])
+                self.pf = {p: None for p in PIECES}
+            else:
+                self.soa = {"g": self.gen, "exp": self.now + s, "tru": self.now + s}
+                for p in NEED[q]:
+                    self.pf[p] = {"g": self.gen, "exp": self.now + min(s, x), "tru": self.now + x, "v": self.ver[p]}
         return {"kind": "resolved", "q": q, "route": "srv", "ttl": min(s, x), "s": s, "x": x}
 
     def step(self, intent):
         """intent = (name, args) where name in Query / Get / Derive / HitDer / Purge / Tick / DropDer; returns the step for the
         driver (the TLA action that the base model takes) or None when the base model has nothing to do."""
         name, a = intent
+        self.event = None
+        if name == "Begin":
+            q, r = a[0], a[1]
+            if self.fl is not None or not self.covered(q):
+                return None
+            self.fl = {"q": q, "r": r, "soa": dict(self.soa), "pf": {p: (dict(e) if e else None) for p, e in self.pf.items()}, "hit": False}
+            self.reply = {"kind": "none"}
+            return {"op": "Begin", "q": q, "r": r, "label": 'Begin("%s","%s")' % (q, r)}
+        if name == "Create":
+            p, tgt = a[0], a[1]
+            if tgt == "flight" and (self.fl is None or self.fl["hit"] or p not in NEED[self.fl["q"]]):
+                return None
+            self.ver[p] += 1
+            self.born += 1
+            if tgt == "flight":
+                self.fl["hit"] = True
+            self.reply = {"kind": "none"}
+            return {"op": "Create", "p": p, "tgt": tgt, "label": 'Create("%s","%s")' % (p, tgt)}
+        if name == "Finish":
+            fl = self.fl
+            if fl is None:
+                return None
+            q = fl["q"]
+            if not self.quar_active():
+                used = NEED[q]
+                exp = min([fl["pf"][p]["exp"] for p in used] + [fl["soa"]["exp"]])
+                self.reply = {"kind": "synth", "q": q, "route": fl["r"], "ttl": exp - self.now, "hand": exp, "soaGen": fl["soa"]["g"],
+                              "gens": {p: fl["pf"][p]["g"] for p in used}, "mtru": min([fl["pf"][p]["tru"] for p in used] + [fl["soa"]["tru"]]),
+                              "hit": fl["hit"], "inflight": True,
+                              "replaced": any(self.pf[p] is not None and self.pf[p]["v"] != fl["pf"][p]["v"] for p in used)}
+                if (self.soa, self.pf) == (fl["soa"], fl["pf"]):
+                    self.prune()
+                self.fl = None
+                return {"op": "Finish", "q": q, "r": fl["r"], "want": "synth", "label": "FlSynth"}
+            self.fl = None
+            if fl["r"] == "get":
+                self.reply = {"kind": "miss", "q": q, "route": "get"}
+                return {"op": "Finish", "q": q, "r": "get", "want": "miss", "label": "FlMissGet"}
+            if fl["hit"]:
+                self.reply = {"kind": "positive", "q": q, "route": "srv"}
+                return {"op": "Finish", "q": q, "r": "srv", "want": "positive", "label": "FlPositive"}
+            s, x = int(a[0]), int(a[1])
+            if self.gen >= self.maxgen:
+                self.fl = fl
+                return None
+            self.reply = self.upstream(q, s, x)
+            return {"op": "Finish", "q": q, "r": "srv", "want": "resolved", "s": s, "x": x, "label": "FlResolve(%d,%d)" % (s, x)}
+        if self.fl is not None and name not in ("Query", "Purge"):
+            return None        # while a lookup is in flight only other clients' misses, zone changes and Purge are scheduled
         if name == "Tick":
             self.now += int(a[0])
+            if self.quar <= self.now:
+                self.quar = 0
             self.reply = {"kind": "none"}
             return {"op": "Tick", "d": int(a[0]), "label": "Tick(%s)" % a[0]}
         if name == "Purge":
             self.pf = {p: None for p in PIECES}
+            self.quar = 0
             self.reply = {"kind": "none"}
             return {"op": "Purge", "label": "Purge"}
         if name == "DropDer":
@@ -144,6 +232,8 @@ class Model:
         if name in ("Query", "Get"):
             q, s, x = a[0], int(a[1]), int(a[2])
             route = "get" if name == "Get" else "srv"
+            if self.fl is not None and self.covered(q):
+                return None
             if self.covered(q):
                 self.reply = self.synth(q, route)
                 return {"op": "Synth", "q": q, "r": route, "label": 'Synth("%s","%s")' % (q, route)}
@@ -191,17 +281,29 @@ class Model:
             return None if e is None else {"g": e["g"], "exp": e["exp"]}
         rp = self.reply
         return {"now": self.now, "gen": self.gen, "soa": ent(self.soa), "pf": {p: ent(e) for p, e in self.pf.items()},
+                "quar": self.quar if self.quar_active() else 0,
                 "derExp": self.der["exp"] if self.der else 0, "kind": rp.get("kind", "none"),
                 "ttl": rp.get("ttl", 0) if rp.get("kind") in ("synth", "derive") else max(rp.get("attl", 0), rp.get("ttl", 0)) if rp.get("kind") in ("derhit", "derchase") else 0,
                 "hand": rp.get("hand", 0)}
 
     def same_as(self, st):
         """Compare with a parsed TLC state of the base model."""
-        def ent(e):
-            return None if e.get("g", 0) == 0 else {"g": e["g"], "exp": e["exp"], "tru": e["tru"]}
+        def ent(e, piece=False):
+            if e.get("g", 0) == 0:
+                return None
+            return dict({"g": e["g"], "exp": e["exp"], "tru": e["tru"]}, **({"v": e["v"]} if piece else {}))
         if st["now"] != self.now or st["gen"] != self.gen or ent(st["soa"]) != self.soa:
             return False
-        if {p: ent(e) for p, e in st["pf"].items()} != self.pf:
+        if {p: ent(e, True) for p, e in st["pf"].items()} != {p: self.pf[p] for p in st["pf"]}:
+            return False
+        if any(self.pf[p] is not None for p in self.pf if p not in st["pf"]):
+            return False
+        if st["quar"] != self.quar or st["born"] != self.born or any(st["ver"][p] != self.ver[p] for p in st["ver"]):
+            return False
+        tfl = st["fl"]
+        if (tfl.get("g", 0) == 0) != (self.fl is None):
+            return False
+        if self.fl is not None and (tfl["q"], tfl["r"], tfl["hit"]) != (self.fl["q"], self.fl["r"], self.fl["hit"]):
             return False
         d = st["der"]
         mine = self.der
@@ -211,7 +313,7 @@ class Model:
         rp = st["reply"]
         if rp["kind"] != self.reply.get("kind"):
             return False
-        for k in ("ttl", "hand", "soaGen", "gens", "mtru", "attl", "amtru"):
+        for k in ("ttl", "hand", "soaGen", "gens", "mtru", "attl", "amtru", "hit", "inflight", "replaced"):
             if k in self.reply and k in rp and rp[k] != self.reply[k]:
                 return False
         return True
@@ -231,20 +333,25 @@ def intent_of(label):
         return ("HitDer", [])
     if name == "HitDerResolve":
         return ("HitDer", a)
-    if name in ("Tick", "Purge", "DropDer"):
+    if name in ("Tick", "Purge", "DropDer", "Begin", "Create"):
         return (name, a)
+    if name in ("FlSynth", "FlMissGet", "FlPositive"):
+        return ("Finish", [5, 5])
+    if name == "FlResolve":
+        return ("Finish", a)
     raise vf.MachineryError("denial-proof behaviour: unexpected action %r" % label)
 
 
-def steps_of(labels, secure, states=None, strict=False):
+def steps_of(labels, secure, states=None, strict=False, kind="nsec"):
     """Action labels -> driver steps with the base model's expectation after each.  With states (TLC's, of the base model)
     the Python model is cross-checked; strict: the base model must take exactly the labelled action."""
-    m = Model(secure=secure)
+    m = Model(secure=secure, kind=kind)
     out = []
     derives, derived_at = 0, 0
     for i, lab in enumerate(labels):
         stale = m.live(m.soa) and any(e is not None and not m.live(e) for e in m.pf.values())
         retire = m.soa is not None and not m.live(m.soa)
+        inflight, blocked = m.fl is not None, m.fl is not None and m.quar_active()
         st = m.step(intent_of(lab))
         if st is None:
             if strict:
@@ -267,7 +374,23 @@ def steps_of(labels, secure, states=None, strict=False):
         st["late_hit"] = st["op"] in ("HitDer", "HitDerResolve") and m.now > derived_at
         st["mixed"] = m.reply.get("kind") in ("synth", "derive", "derchase") and any(
             g != m.reply["soaGen"] for g in m.reply["gens"].values())
+        # the lookup-in-flight dimension
+        st["interleaved"] = inflight and st["op"] in ("Resolve", "Purge", "Create")
+        st["conflict"] = m.event == "conflict"
+        st["conflict_inflight"] = inflight and m.event == "conflict"
+        st["refused"] = m.event == "refused"
+        st["blocked"] = st["op"] == "Finish" and blocked
+        st["born_flight"] = st["op"] == "Create" and st["tgt"] == "flight"
+        st["stale_snapshot"] = st["op"] == "Finish" and bool(m.reply.get("replaced"))
         out.append(st)
+    if m.fl is not None:
+        # a behaviour cut with a lookup still in flight: the driver must not leave it parked
+        fin = m.step(("Finish", [5, 5]))
+        if fin is not None:
+            fin["exp"] = m.exp()
+            for f in FLAGS + RACE_FLAGS:
+                fin.setdefault(f, False)
+            out.append(fin)
     return out
 
 
@@ -282,14 +405,25 @@ FEATURES = {   # feature -> (weight, cap): a behaviour is worth replaying for th
     "purge": (2, 1),
     "get": (1, 2),
     "resolve": (1, 4),
+    # Race
+    "conflict_inflight": (9, 2),   # an admission met a second RRset at one owner hash while a lookup was in flight
+    "blocked": (9, 2),             # the re-check of the released lookup meets the tombstone
+    "born_flight": (4, 2),         # the question in flight turned positive
+    "conflict": (4, 2),
+    "refused": (3, 2),             # an admission refused while the tombstone lasts
+    "interleaved": (2, 4),
+    "stale_snapshot": (3, 1),      # the snapshot of the released lookup rests on an RRset the index has replaced (as built)
+    "finish": (1, 3),
 }
+RACE_FLAGS = ("interleaved", "conflict", "conflict_inflight", "refused", "blocked", "born_flight", "stale_snapshot")
 
 
 def features(steps):
     c = dict.fromkeys(FEATURES, 0)
     for s in steps:
-        for f in ("mixed", "stale", "retire", "late_hit"):
+        for f in ("mixed", "stale", "retire", "late_hit") + RACE_FLAGS:
             c[f] += 1 if s.get(f) else 0
+        c["finish"] += s["op"] == "Finish"
         c["tick"] += s["op"] == "Tick"
         c["derive"] += s["op"] == "Derive"
         c["hit"] += s["op"] in ("HitDer", "HitDerResolve")
@@ -308,40 +442,50 @@ FLAGS = ("mixed", "stale", "retire", "late_hit")
 
 
 # ---------------------------------------------------------------------------------------------------------------------------
-def model_jobs(ctx, thorough):
-    """(jobs, post): everything TLC decides on the model alone; the negative twins also yield the counter-examples."""
-    passing = [("MC_Quick.cfg", 4), ("MC_Insecure.cfg", 1)]
+def model_jobs(ctx, thorough, part="all"):
+    """(jobs, post): everything TLC decides on the model alone; the negative twins also yield the counter-examples.
+    part = "race": only the lookup-in-flight dimension (what a C02 run adds to its own tiers)."""
+    passing, neg = [], []
+    if part == "all":
+        passing = [("MC_Quick.cfg", 4), ("MC_Insecure.cfg", 1)]
+        if thorough:
+            passing += [("MC_Full.cfg", 6), ("MC_Two.cfg", 4)]
+        neg += NEG
+    passing += [("MC_Race3.cfg", 4), ("MC_RaceNsec.cfg", 4)]
     if thorough:
-        passing += [("MC_Full.cfg", 6), ("MC_Two.cfg", 4)]
+        passing += [("MC_Race3Full.cfg", 6), ("MC_RaceNsecFull.cfg", 6)]
+    neg = neg + RACE_NEG + RACE_DOC
     jobs = [lambda c=c, w=w: ctx.tlc(MOD, SPEC, c, workers=w, timeout=1500, heap="6g", tag="exhaustive") for c, w in passing]
     jobs += [lambda c=c: ctx.tlc(MOD, SPEC, c, workers=1, timeout=300, heap="2g", must_pass=False, count=False, tag="negative")
-             for c, _ in NEG]
+             for c, _ in neg]
 
     def post(out):
         cex, refuted = [], {}
-        for (cfg, want), r in zip(NEG, out[len(passing):]):
+        for (cfg, want), r in zip(neg, out[len(passing):]):
             if r.violated != want:
                 raise vf.MachineryError("negative config %s must refute %s on the model, TLC says %r (vacuous predicate?)" % (cfg, want, r.violated))
             refuted[cfg] = want
+            if (cfg, want) in RACE_DOC:
+                continue        # documented as-built behaviour: nothing to force on the code
             tr = counterexample(r)
             if len(tr) < 2:
                 raise vf.MachineryError("could not read the counter-example of %s" % cfg)
             cex.append((cfg[3:-4], [lab for lab, _ in tr[1:]]))
-        ctx.cov["replay"]["denial_proof_model"] = {
+        ctx.cov["replay"]["denial_proof_model" if part == "all" else "denial_proof_race_model"] = {
             "exhaustive": {c: {"distinct": r.distinct, "generated": r.generated, "depth": r.depth} for (c, _), r in zip(passing, out)},
             "mutants_refute": refuted}
         return cex
     return jobs, post
 
 
-def sim_behaviours(ctx, family, num, depth, keep):
-    behs = ctx.tlc_behaviours(MOD, SPEC, SIM[family], num=num, depth=depth, timeout=600)
+def sim_behaviours(ctx, family, num, depth, keep, cfgs=SIM):
+    behs = ctx.tlc_behaviours(MOD, SPEC, cfgs[family], num=num, depth=depth, timeout=600)
     uniq = {}
     for b in behs:
         labels = [lab for lab, _ in b[1:]]
         if len(labels) < 4:
             continue
-        steps = steps_of(labels, FAMILIES[family]["secure"], states=[st for _, st in b[1:]], strict=True)
+        steps = steps_of(labels, FAMILIES[family]["secure"], states=[st for _, st in b[1:]], strict=True, kind=KIND[family])
         key = ";".join(labels)
         uniq.setdefault(key, steps)
     ranked = sorted(uniq.values(), key=lambda s: -interest(s))
@@ -368,32 +512,42 @@ def take(ctx, res, prefix):
     return keep, other
 
 
-def replay_tier(ctx, thorough, cex):
+def replay_tier(ctx, thorough, cex, part="all"):
     plan = {"nsec": (300, 16), "nsec3": (300, 16), "insecure": (12, 3)}
+    race_plan = {"nsec3": (400, 8), "nsec": (400, 5)}
     if thorough:
         plan = {"nsec": (900, 160), "nsec3": (900, 160), "insecure": (60, 12)}
+        race_plan = {"nsec3": (2000, 48), "nsec": (2000, 24)}
+    if part != "all":
+        plan = {}
     depth = 22 if not thorough else 30
-    fams = list(plan)
-    sims = parallel([lambda f=f: sim_behaviours(ctx, f, plan[f][0], depth, plan[f][1]) for f in fams])
+    fams, rfams = list(plan), list(race_plan)
+    sims = parallel([lambda f=f: sim_behaviours(ctx, f, plan[f][0], depth, plan[f][1]) for f in fams] +
+                    [lambda f=f: sim_behaviours(ctx, f, race_plan[f][0], 18, race_plan[f][1], cfgs=RACE_SIM) for f in rfams])
     behaviours, info = [], {}
     # the mutants' counter-examples first (on both signed families), then the simulated behaviours
-    for fam in ("nsec", "nsec3"):
+    for fam in ("nsec3", "nsec"):
         for name, labels in cex:
-            steps = steps_of(labels, True)
+            steps = steps_of(labels, True, kind=KIND[fam])
             if len(steps) >= 2:
                 behaviours.append({"id": "cex-%s-%s" % (name, fam), "family": fam, "steps": steps})
+    # the headline counter-examples (the seeded re-check change on the NSEC3 family) lead: the driver stops after 6 verdicts
+    behaviours.sort(key=lambda b: not (b["id"].startswith("cex-Recheck") and b["family"] == "nsec3"))
     ncex = len(behaviours)
-    for fam, (nsim, ranked) in zip(fams, sims):
+    for fam, (nsim, ranked) in zip(fams + rfams, sims):
+        tag = fam if len(info) < len(fams) else "race-" + fam
         for i, steps in enumerate(ranked):
-            behaviours.append({"id": "%s-%d" % (fam, i), "family": fam, "steps": steps})
-        info[fam] = {"tlc_behaviours": nsim, "replayed": len(ranked), "steps": sum(len(s) for s in ranked),
+            behaviours.append({"id": "%s-%d" % (tag, i), "family": fam, "steps": steps})
+        info[tag] = {"tlc_behaviours": nsim, "replayed": len(ranked), "steps": sum(len(s) for s in ranked),
                      "features": {f: sum(features(s)[f] for s in ranked) for f in FEATURES}}
     for b in behaviours:
         for st in b["steps"]:
-            for f in FLAGS:
+            for f in FLAGS + RACE_FLAGS:
                 st.pop(f, None)
-    inp = {"unit": UNIT, "families": FAMILIES, "classes": CLASSES, "behaviours": behaviours}
-    res = ctx.go_driver("./x04dp", "TestDenialProofReplay", inp, name="dproof_replay", timeout=1500 if thorough else 600)
+    inp = {"unit": UNIT, "families": FAMILIES if part == "all" else {f: FAMILIES[f] for f in rfams}, "classes": CLASSES,
+           "behaviours": behaviours}
+    res = ctx.go_driver("./x04dp", "TestDenialProofReplay", inp, name="dproof_replay" if part == "all" else "dproof_race_replay",
+                        timeout=1500 if thorough else 600)
     kept, other = take(ctx, res, "[denial-proof replay] ")
     cnt = res.get("counters", {})
     info.update({"counterexample_behaviours": ncex, "behaviours": len(behaviours), "steps": cnt.get("steps", 0),
@@ -401,23 +555,30 @@ def replay_tier(ctx, thorough, cex):
                  "pools": {k[5:]: v for k, v in cnt.items() if k.startswith("pool_")},
                  "drift": res.get("drift", 0), "drift_notes": res.get("drift_notes", []),
                  "out_of_class_breaches": [v.get("key") for v in other]})
-    ctx.cov["replay"]["denial_proof_replay"] = info
+    ctx.cov["replay"]["denial_proof_replay" if part == "all" else "denial_proof_race_replay"] = info
     if kept or other:
         return
     if res.get("skipped"):
         raise vf.MachineryError("denial-proof replay could not run as planned: %s" % res["skipped"][:3])
-    ran = sum(cnt.get("behaviours_" + f, 0) for f in fams)
-    if ran + cnt.get("pool_exhausted", 0) < len(behaviours):
+    ran = sum(cnt.get("behaviours_" + f, 0) for f in set(fams + rfams))
+    if ran + cnt.get("pool_exhausted", 0) + cnt.get("create_unrealisable", 0) < len(behaviours):
         raise vf.MachineryError("denial-proof replay ran %d of %d behaviours" % (ran, len(behaviours)))
     need = ["synth_msg", "synth_raw", "synth_get", "synth_nodo", "synth_nx", "synth_nodata", "derive_msg", "derive_raw",
             "derived_entries_audited", "synth_mixed_generations", "states_compared", "behaviours_nsec", "behaviours_nsec3",
             "behaviours_insecure", "existing_probes", "missget"]
+    if part != "all":
+        need = ["states_compared", "behaviours_nsec", "behaviours_nsec3"]
+    # the lookup-in-flight dimension must really have been forced on the code: lookups parked at both seams, admissions and
+    # zone changes of both shapes in between, the quarantine met by an admission and by the re-check of a released lookup
+    need += ["inflight_parked_clock", "inflight_parked_hash", "inflight_interleaved_admissions", "inflight_conflict_admissions",
+             "inflight_blocked_by_quarantine", "inflight_synth", "inflight_hit_judged", "create_type", "create_name",
+             "quarantine_observed"]       # (all of them are met by the twins' counter-examples alone, whatever the seed)
     miss = [k for k in need if not cnt.get(k)]
-    if not (cnt.get("hitder_msg", 0) + cnt.get("hitder_raw", 0)):
+    if part == "all" and not (cnt.get("hitder_msg", 0) + cnt.get("hitder_raw", 0)):
         miss.append("hitder_*")
     if miss:
         raise vf.MachineryError("denial-proof replay is vacuous: no %s (counters %s)" % (miss, info["counters"]))
-    if cnt.get("synth_mixed_generations", 0) < 8:
+    if part == "all" and cnt.get("synth_mixed_generations", 0) < 8:
         raise vf.MachineryError("denial-proof replay: only %d replies synthesised from pieces of different admissions (vacuous)"
                                 % cnt.get("synth_mixed_generations", 0))
     if cnt.get("behaviours_drifted", 0) > max(3, len(behaviours) // 4):
@@ -466,9 +627,31 @@ def run_tier(ctx):
         "X04DP: a DO-less synthesised reply does not show its proof records; the latest-ending admission of each needed owner "
         "bounds it",
     ]
-    jobs, post = model_jobs(ctx, thorough)
+    part = os.environ.get("X04DP_PART", "all")      # "race": only the lookup-in-flight dimension (development aid)
+    jobs, post = model_jobs(ctx, thorough, part=part)
     cex = post(parallel(jobs))
-    replay_tier(ctx, thorough, cex)
+    replay_tier(ctx, thorough, cex, part=part)
+
+
+def run_race_tier(ctx):
+    """What a C02 run adds to its own tiers (checks/c02.py): the lookup-in-flight dimension only -- Race configs, their
+    twins, the counter-examples and simulated Race behaviours on the real pipeline; class c02/ decides the exit code."""
+    global ONLY
+    ONLY = "C02"
+    thorough = ctx.tier == "thorough"
+    ensure_overlay(ctx)
+    ctx.assumptions += [
+        "X04DP (Race): a lookup is parked either in the index clock read right after the snapshot was captured (overlay: "
+        "denialProofCache.now) or in the shared crypto gate inside the production BeginNSEC3Hash of its first NSEC3 hash "
+        "(mid-evaluation); the evaluation reads the immutable snapshot only, so everything scheduled between the capture "
+        "and the re-check is performed at that one point; the clock does not move while a lookup is parked",
+        "X04DP (Race): a zone change is a type added at the existing name of a proof owner or a name created inside its "
+        "span on the live authority (real re-signed chain); 'exists' is the authority's zone at the instant the lookup is "
+        "released; a denial of it is a violation only when the index had tombstoned the ring before the release",
+    ]
+    jobs, post = model_jobs(ctx, thorough, part="race")
+    cex = post(parallel(jobs))
+    replay_tier(ctx, thorough, cex, part="race")
 
 
 def run(ctx, replay_path):
